@@ -78,7 +78,7 @@ func refHrpExpand(hrp string) []byte {
 // prefix, whatever the case of its letters.
 func (w *world) segPrefix(s string) bool {
 	sep := strings.LastIndexByte(s, '1')
-	return sep > 1 && w.regPrefix[strings.ToLower(s[:sep+1])]
+	return sep >= 1 && w.regPrefix[strings.ToLower(s[:sep+1])]
 }
 
 // formOf is FormOf of AddrCodec.tla: the dispatch of DecodeAddress.
@@ -161,7 +161,7 @@ func abstractBech(s string) (bechAbs, []byte) {
 			acc &= (1 << bits) - 1
 		}
 	}
-	if bits >= 1 && bits <= 4 {
+	if bits >= 1 {
 		a.PadZero = acc == 0
 	}
 	a.Anchor = a.Ng == 4 && len(prog) == 2 && prog[0] == 0x4e && prog[1] == 0x73
